@@ -255,7 +255,8 @@ ExitCurrent(s, new) ==                    \* _exit_current_state
   IF s.st = "NONE"                          \* being constructed: nothing to exit, only the initial state may be entered
   THEN (IF new.label = "CREATED" THEN Ok(s, None) ELSE Err(s, "RuntimeError"))
   ELSE IF new.label \notin Allowed(s.st) THEN Err(s, "RuntimeError")
-  ELSE LET a == IF s.closed THEN Ok(s, None)       \* close() dropped the event callbacks
+  \* close() dropped the event callbacks; F17: of the others - the process keeps its own lifecycle hooks
+  ELSE LET a == IF s.closed THEN (IF "F17" \in Fixes THEN OnExiting(s) ELSE Ok(s, None))
                 ELSE Then(OnExiting(s), LAMBDA t : Hook(t, "cb_exiting"))
        IN IF a.exc # NoExc THEN a ELSE Ok(DoExit(a.s), None)
 
@@ -264,7 +265,7 @@ EnterNext(s, new) ==                      \* _enter_next_state
       \* known finding D11: close() dropped the event callbacks, a later transition (only reachable when a
       \* termination hook raises) changes the label but neither the future nor the listeners
       \* (during construction only the process's own callbacks exist: nobody else holds a reference yet)
-      a == IF s.closed THEN Ok(Dev(s, "D11"), None)
+      a == IF s.closed THEN (IF "F17" \in Fixes THEN OnEntering(s, new) ELSE Ok(Dev(s, "D11"), None))
            ELSE IF last = "NONE" THEN OnEntering(s, new)
            ELSE Then(OnEntering(s, new), LAMBDA t : Hook(t, "cb_entering"))
   IN IF a.exc # NoExc THEN a ELSE
@@ -276,7 +277,7 @@ EnterNext(s, new) ==                      \* _enter_next_state
                            !.keep = IF new.label = "WAITING" THEN NoKeep ELSE @,
                            !.mon.resumed = IF new.label = "WAITING" THEN FALSE ELSE @,
                            !.bad = IF last \in Terminal THEN @ \cup {"leftTerminal"} ELSE @]
-     IN IF s1.closed THEN Ok(s1, None)
+     IN IF s1.closed THEN (IF "F17" \in Fixes THEN OnEntered(s1, last) ELSE Ok(s1, None))
         ELSE IF last = "NONE" THEN OnEntered(s1, last)
         ELSE Then(OnEntered(s1, last), LAMBDA t : Hook(Note(t, <<"enter", last, new.label>>), "cb_entered"))
 
